@@ -22,6 +22,9 @@ CONSTANTS MaxWord,   \* scaled 2^63-1
           Maxes,     \* batch sizes (MaxGetEntriesAllowed)
           K          \* cluster width factor: values within K*max+1 of 0 and of MaxWord
 
+\* the two clusters must not meet, otherwise a model value would stand for two different int64 values
+ASSUME \A m \in Maxes : 2 * (K * m + 2) < MaxWord
+
 Min(a, b) == IF a < b THEN a ELSE b
 Modulus == 2 * (MaxWord + 1)
 Wrap(x) == ((x + (MaxWord + 1)) % Modulus) - (MaxWord + 1)
